@@ -16,6 +16,10 @@ FREE_TEXT = [(r"\.doc$", "documentation comment"), (r"\|namespace_doc$", "docume
              (r"\.text$|\.comment$", "free text")]
 
 
+# filters that may follow an escaping filter without putting markup back (whitespace / case / cut only)
+NEUTRAL_AFTER_ESCAPE = {"trim", "lower", "upper", "capitalize", "title", "indent", "truncate", "wordwrap", "center", "string", "first", "last", "length", "default", "d"}
+
+
 def autoescape_for(template_name: str) -> bool:
     """evaluate the REAL select_autoescape configuration found in CodeGenEnvironment.__init__ on a template name"""
     src = (SRC / "nunavut/jinja/environment.py").read_text()
@@ -73,7 +77,7 @@ def main():
             def is_source(t, node):
                 return any(re.search(p, t) for p, _ in FREE_TEXT)
 
-            unsanitised = set(efx.jinja_tainted(expr, is_source, SANITIZERS))
+            unsanitised = set(efx.jinja_tainted(expr, is_source, SANITIZERS, neutral_after=NEUTRAL_AFTER_ESCAPE))
             for h in efx.jinja_tainted(expr, is_source, set()):
                 name = f"{rel}#free-text-escaped:{h[:40]}"
                 ok = auto or h not in unsanitised
